@@ -452,10 +452,17 @@ def client_reply(rng, q, real=None):
 def answer_truncations(rng, real):
     """C12, client side: shapes derived from a REAL answer `real` that end early."""
     n = len(real)
-    k = rng.randrange(8)
+    k = rng.randrange(10)
     m = D.parse(real)
     if k < 3 or not m.an:
         return real[:rng.randrange(12, max(13, n))]
+    if k >= 8:
+        # cut exactly on a record boundary: the datagram ends right after the fixed part of a record (usually the last
+        # one) whose RDLENGTH is patched to the 0 / 1 / 2 bytes that are left - fields the decoder reads from the rdata
+        # without looking at RDLENGTH (MX preference, SRV weight / port, first TXT length) then come from the residue
+        rr2 = m.an[-1] if rng.random() < 0.7 else rng.choice(m.an)
+        left = rng.choice([0, 0, 1, 2])
+        return real[:rr2.rdoff - 2] + struct.pack(">H", left) + real[rr2.rdoff:rr2.rdoff + left]
     rr = m.an[0]
     rdl_off = rr.rdoff - 2
     rdlen = len(rr.rdata)
